@@ -25,7 +25,7 @@ ASSUMPTIONS = [
 ]
 
 EXT = "/Zzqext-1"
-VALUES = ["/12 ms", "/AbC d_3", "/a:b/c d"]      # the last one: a colon and a later slash inside the value
+VALUES = ["/12 ms", "/AbC d_3", "/a:b/c d", "/", "/data/raw/", "//x"]      # a colon and a later slash inside the value; an empty value; slashes at the ends
 
 
 def case_variants(s):
